@@ -231,3 +231,41 @@ CHECKS["C16"] = {
         {"part": "corpus", "crate": "vkip", "bin": "c16_corpus", "budget_quick": 15, "budget_thorough": 600},
     ],
 }
+
+CHECKS["C17"] = {
+    "level": "model_checking",
+    "engine": "HIST (statement histories on the real Nexus, differential dump oracle) + STEP (reader || writer over a gated store)",
+    "technique": "explicit enumeration of KML statement histories executed through the real parser and executor with a full-observable-state differential oracle; exhaustive preemption-bounded interleaving enumeration of one writer against one reader at store-call granularity",
+    "design_ref": "DESIGN.md 5/C17",
+    "text": "hist: all sequences to depth 2 (quick) / 3 (thorough, as far as the budget allows) of 36 statement templates x {commit, options.dry_run, PREVIEW KML} from an empty and a seeded space: single and multi-clause blocks with forward references, UPSERT/ENSURE hit and miss, failing EXPECT guards, a failing clause first/middle/last, the same tuple ENSUREd twice, the same key created or upserted twice, dangling references, unauthorized principals, parser refusals, lifecycle statements. The DUMP is everything a query, meta command or historical read can observe: KQL over every kind and state incl. pending, counts, beliefs and slots pinned FOR TIME, DESCRIBE/LIST/HISTORY/CHANGES/SNAPSHOT/SEARCH, transaction and element probes, AS OF reads at every journalled sequence (only the space sequence counter masked). Refused / dry / previewed => dump before == dump after; committed => one fresh sequence, one journal row, every changed element's version +1 exactly once, unchanged elements keep theirs; one element per tuple and one concept per (type,key) after every step. step: a multi-row writer (three commits, a dry run, PREVIEW, a statement refused at commit) against a reader issuing 12 read commands, every schedule with <= 1 preemption (thorough 3): each read sees the before- or the after-answer and never goes back.",
+    "note": "The dump is the observable surface; the governance audit (host API only) is outside it. PURGE only as a refused statement; capsule import, retention side effects and idempotency keys are not covered. Five defects found and repaired (see known_findings.json fixed).",
+    "parts": [
+        {"part": "hist", "crate": "vnexus", "bin": "c17_hist", "budget_quick": 40, "budget_thorough": 900},
+        {"part": "step", "crate": "vnexus", "bin": "c17_step", "budget_quick": 12, "budget_thorough": 300},
+    ],
+}
+
+CHECKS["C18"] = {
+    "level": "model_checking",
+    "engine": "HIST (committed histories on the real Nexus; live recording vs AS OF replay)",
+    "technique": "explicit enumeration of committed statement histories; a query battery recorded live at every sequence number and replayed AS OF SEQ / TX / TIME after every later statement, compared field for field",
+    "design_ref": "DESIGN.md 5/C18",
+    "text": "Committed histories from a seeded space over 13 step kinds (create, rename, facet decay, structural relink, archive, tombstone, retract, supersede, merge, functional assert, reject, schema-activation toggle, creation under the new schema): quick = depth 2 over the whole alphabet + depth 3 over 6 mutation-kind representatives (356 histories), thorough = depth 3 complete, depth 4 as far as the budget allows. After every commit a 38-query battery (element, tuple, structural, path, belief and slot patterns pinned FOR TIME, filters, aggregates) plus 2 META reads is recorded live; after the last statement every recording is replayed AS OF SEQ (whole battery) and AS OF TX / AS OF TIME (whole-kind queries + META) and must equal the recording; assertion and evidence payloads are compared across all version rows.",
+    "note": "Commit timestamps are wall-clock milliseconds: in quick the AS OF TIME replay is done only where unambiguous. Historical SEARCH is unsupported by the engine. Two defects found and repaired.",
+    "parts": [
+        {"part": "hist", "crate": "vnexus", "bin": "c18_hist", "budget_quick": 40, "budget_thorough": 900},
+    ],
+}
+
+CHECKS["C19"] = {
+    "level": "model_checking",
+    "engine": "HIST/SCOPE (control-plane action sequences x principals x query battery, relational check between two executions) + command enumeration",
+    "technique": "explicit enumeration of governance configurations reachable by control-plane action sequences on the real Nexus; per configuration and principal the implementation's decision matrix is compared with an independent AuthModel and every battery answer with the owner's answer on a second Nexus holding only what the principal may read (non-interference as a relation between two executions); complete enumeration of protected-field positions x spellings for the command language",
+    "design_ref": "DESIGN.md 5/C19",
+    "text": "nonint: all control-plane action sequences (owner, two principals, one group) to depth 2 + new AuthModel states to depth 3 (quick; thorough 3 / 4: 25,371 configurations) over 19 (24) actions: grants scoped by kind / type / classification / element, classification ceiling, field mask, expired grant, write grant, group grant, delegation and re-delegation, two policies with allow + deny and a condition, revoke grant, revoke delegation, suspend; every prefix is its own configuration, so the battery runs after EVERY control action (immediacy). Per configuration and principal: AuthModel decision == EffectiveAuthority::authorize over 15 permissions x 15 resources; the read battery (40 quick / 64 thorough commands: lookups, patterns, indexed matchers, COUNT/aggregates, tuples/paths, ORDER BY/FILTER on masked fields, OPTIONAL/NOT/UNION, LIMIT+CURSOR, AS OF, SEARCH + paging, HISTORY/CHANGES, DESCRIBE, LIST, EXPORT, PREVIEW KML) as the principal on the full store must equal the owner's answers on a second store holding only what AuthModel lets the principal read with masked fields left out (rows, order, counts, cursors kept; ids mapped to logical keys); plus a taint check (no name/id/token of an unreadable element anywhere) and PREVIEW existence-neutrality. commands: 27 field-name positions across the clause families x 16 protected-field spellings, as text and as pre-parsed ast, ordinary mutations of all 16 clause families (also as PREVIEW / VALIDATE / dry run), 28 control-plane look-alike statements, 27 reads, for owner / broad writer / restricted reader: the 8 gov_* collections, every element's governance column and the space's authority members are byte-identical before and after every command (audit rows may only be appended).",
+    "note": "AuthModel restates the documented decision order. One fixed population of 9 elements; no approvals, purposes, max_results, multiple spaces; KML error codes as an existence channel only probed through PREVIEW. Eight root causes (16 signatures) recorded as known findings, none repaired (governance semantics).",
+    "parts": [
+        {"part": "nonint", "crate": "vgov", "bin": "c19_nonint", "budget_quick": 32, "budget_thorough": 1500},
+        {"part": "commands", "crate": "vgov", "bin": "c19_cmd", "budget_quick": 8, "budget_thorough": 60},
+    ],
+}
